@@ -43,7 +43,7 @@ def cq_str(s_):
 
 PID = "C13"
 PARALLEL = 12
-SHARD = 170            # cases per coqc file: the cost is parsing the case files, 16 of them run side by side
+SHARD = 190            # cases per coqc file: the cost is parsing the case files, 16 of them run side by side
 IMPORTS_BASE = "From Verif Require Import C13.Model C13.Builders C13.Extra C13.Farg C13.Release C13.Corr.\nFrom VerifGen Require Import C13Tables."
 IMPORTS = IMPORTS_BASE
 CASE_TYPE = "C13.Corr.case"
@@ -380,19 +380,75 @@ def _render_table():
     L.append("Definition live_ids : list (list qname) := [")
     L.append(";\n".join("  (* %d *) [%s]" % (i, "; ".join(cq_q(n) for n in r.ids)) for i, r in enumerate(recs)))
     L.append("].")
+    L.append("")
+    L.append("(* the built-in attribute maps (saml2.attributemaps, loaded by ac_factory() when no attribute_map_dir is")
+    L.append("   configured), in loading order: (name_format, (_to, _fro)) with the keys as from_dict lower-cases them *)")
+    L.append("Definition builtin_convs_raw : list (string * (list (string * string) * list (string * string))) := [")
+    L.append(";\n".join("  " + conv_raw(c) for c in builtin_converters()))
+    L.append("].")
     return "\n".join(L) + "\n"
 
 
+def builtin_converters():
+    from saml2.attribute_converter import ac_factory
+
+    return ac_factory()
+
+
+def conv_raw(c):
+    """an AttributeConverter -> Coq (name_format, (_to, _fro)); fail-closed on anything that is not str -> str"""
+    def tab(d):
+        d = d or {}
+        for k, v in d.items():
+            if not isinstance(k, str) or not isinstance(v, str):
+                raise TableError("attribute map entry %r: %r is not str -> str" % (k, v))
+        return "[%s]" % "; ".join("(%s, %s)" % (_cq_str(k), _cq_str(v)) for k, v in d.items())
+    if not isinstance(c.name_format, str):
+        raise TableError("attribute map identifier %r" % (c.name_format,))
+    return "(%s, (%s, %s))" % (_cq_str(c.name_format), tab(c._to), tab(c._fro))
+
+
+def source2_items():
+    """What translator v2 (harness/py2coq2.py) re-translates from the source text on every run: the two loops of
+    create_requested_attribute_node.  The two element constructors are spec calls (an object with the keyword
+    arguments as fields); C13/Source2.v proves the translated function equal to Builders.ra_resolve_all for ALL
+    attribute dictionaries and ALL converter lists."""
+    from harness import py2coq2
+
+    def requested_attribute(a, kw):
+        extra = sorted(set(kw) - {"is_required", "name_format", "friendly_name", "name"})
+        if a or extra or len(kw) != 4:
+            raise py2coq2.Untranslatable("RequestedAttribute(%d positional; keywords %s)" % (len(a), sorted(kw)))
+        return ('(PObj [("__class__", PStr "RequestedAttribute"); ("name", %s); ("name_format", %s); ("friendly_name", %s); '
+                '("is_required", %s)])' % (kw["name"], kw["name_format"], kw["friendly_name"], kw["is_required"]))
+
+    def requested_attributes(a, kw):
+        if a or sorted(kw) != ["extension_elements"]:
+            raise py2coq2.Untranslatable("RequestedAttributes(%d positional; keywords %s)" % (len(a), sorted(kw)))
+        return '(PObj [("__class__", PStr "RequestedAttributes"); ("extension_elements", %s)])' % kw["extension_elements"]
+
+    return [(os.path.join(env.SRC, "saml2", "client_base.py"), "create_requested_attribute_node",
+             {"name": "src2_create_requested_attribute_node", "params": ["requested_attrs", "attribute_converters"],
+              "calls": {"RequestedAttribute": requested_attribute, "RequestedAttributes": requested_attributes}})]
+
+
 def regenerate_tables(ctx):
+    from harness import py2coq2
+
     changed = common.write_if_changed(OUT, render_table())
     recs = load_table()
-    return {"file": "coq/gen/C13Tables.v", "classes": len(recs), "changed": changed,
+    # translator v2: create_requested_attribute_node as it reads NOW -> coq/gen/C13Src2.v (a function that can no
+    # longer be translated becomes a poisoned definition: its theorem stops checking)
+    src2 = py2coq2.regenerate(os.path.join(common.GEN, "C13Src2.v"), source2_items())
+    return {"file": "coq/gen/C13Tables.v", "classes": len(recs), "changed": changed or bool(src2.get("changed")),
+            "builtin_attribute_maps": len(builtin_converters()),
+            "source2": src2, "untranslatable": list(src2["untranslatable"]),
             "members": sum(len(r.parts) for r in recs), "attributes": sum(len(r.attrs) for r in recs),
             "lexical_types_not_checked": NOT_CHECKED, "members_registered_under_a_foreign_key": FOREIGN_KEYS,
             "under_theorem": UNDER_THEOREM, "correspondence_only": CORRESPONDENCE_ONLY,
             "supplements_to_the_class_tables": sorted(SUPPLEMENTS_USED),
-            # table obligations are the table_* theorems of Property.v (counted there)
-            "obligations": 0, "discharged": 0}
+            # table obligations are the table_* theorems of Property.v (counted there); the translated function is one more
+            "obligations": src2["obligations"], "discharged": src2["discharged"]}
 
 
 # =============================================================================== independent reader
@@ -602,11 +658,66 @@ def sp_conf(cfg):
         "encryption_keypairs": [{"key_file": fixtures.key_path("sp"), "cert_file": fixtures.cert_path("sp")}],
     }
     for k, v in cfg.items():
-        if k.startswith("sp_"):
+        if k == "_maps":
+            conf["attribute_map_dir"] = map_dir(v)      # an attribute_map_dir of the harness's own (MAPSETS)
+        elif k.startswith("_"):
+            continue
+        elif k.startswith("sp_"):
             sec[k[3:]] = copy.deepcopy(v)
         else:
             conf[k] = copy.deepcopy(v)
     return conf
+
+
+# ------------------------------------------------------------------------------- attribute maps of the harness's own
+# Three small maps A, B, C.  Friendly name "f<S>" / name "urn:n:<S>" is known to exactly the maps whose letter is in S,
+# every map answers with a value of its own ("urn:a:fAB", "frAB.a"), so the output shows which map was asked.  Keys in
+# mixed case test the lower-casing at load time and at look-up time.  A map set names the maps and their loading order
+# (ac_factory loads the files of the directory in sorted order); "x" is A given with "fro" only (from_dict derives _to).
+NF_C = "urn:example:verif:attrname-format:c"
+_SUBSETS = ["A", "B", "C", "AB", "AC", "BC", "ABC"]
+
+
+def _map_dict(letter):
+    fmt = {"A": NF_URI, "B": "urn:oasis:names:tc:SAML:2.0:attrname-format:basic", "C": NF_C}[letter]
+    lo = letter.lower()
+    to = {"f" + s: "urn:%s:f%s" % (lo, s) for s in _SUBSETS if letter in s}
+    fro = {"urn:n:" + s: "fr%s.%s" % (s, lo) for s in _SUBSETS if letter in s}
+    to["MixedCase" + letter] = "urn:%s:Mixed" % lo
+    fro["URN:N:Upper" + letter] = "frUpper.%s" % lo
+    return {"identifier": fmt, "to": to, "fro": fro}
+
+
+MAPSETS = {"abc": "ABC", "cba": "CBA", "bac": "BAC", "acb": "ACB", "a": "A", "ab": "AB", "bc": "BC", "xb": "xB"}
+
+
+def map_dir(name):
+    """the directory of map set `name` (written on first use; module names are unique per set because
+    attribute_converter imports the files as top-level modules and Python caches modules by name)"""
+    import tempfile
+
+    letters = MAPSETS[name]
+    d = os.path.join(tempfile.gettempdir(), "verif-c13-maps-%d" % os.getuid(), name)
+    os.makedirs(d, exist_ok=True)
+    for i, letter in enumerate(letters):
+        if letter == "x":
+            m = _map_dict("A")
+            del m["to"]
+        else:
+            m = _map_dict(letter)
+        text = "# written by harness/c13.py (map set %s)\nMAP = %r\n" % (name, m)
+        f = os.path.join(d, "c13map_%s_%d.py" % (name, i))
+        try:
+            with open(f) as fh:
+                same = fh.read() == text
+        except OSError:
+            same = False
+        if not same:
+            tmp = "%s.%d.tmp" % (f, os.getpid())
+            with open(tmp, "w") as fh:
+                fh.write(text)
+            os.replace(tmp, f)
+    return d
 
 
 def idp_conf(cfg):
@@ -1638,7 +1749,7 @@ def coq_binfo(case, obs):
     if case.get("mut") is not None or case["b"] not in MODELLED:
         return "BOther"
     if obs["tree"] is None:
-        if MODELLED_EXC.get(case["b"]) == obs["exc"] and case["b"] == "logout_request":
+        if MODELLED_EXC.get(case["b"]) == obs["exc"] and case["b"] in ("logout_request", "authn_request"):
             return MODELLED[case["b"]](case, obs)
         return "BOther"
     return MODELLED[case["b"]](case, obs)
@@ -1667,6 +1778,10 @@ def expected_exc(case):
                 return "type"               # do_ava: a type for no value (iterates over None)
             if isinstance(k, list) and len(k) == 1:
                 return "value"              # do_attribute unpacks a tuple key into 3, then 2 names: a 1-tuple fails
+    if b == "authn_request":
+        ras = a.get("requested_attributes") or case["cfg"].get("sp_requested_attributes") or []
+        if any(not x.get("name") and not x.get("friendly_name") for x in ras):
+            return "value"                  # "Missing required attribute: 'name' or 'friendly_name'" (Builders.ra_resolve says so too)
     if b == "artifact_response" and (a.get("sign") or (a.get("sign") is None and _should_sign(case))):
         return "attribute"                  # the signed text has no .extension_elements
     if b == "ecp_authn_request" and a.get("sign"):
@@ -2961,6 +3076,207 @@ def gen_identity(ctx):
     return out + muts
 
 
+# ---- eIDAS requested attributes: every spelling of an attribute x every pattern of "which loaded map knows it"
+_RA_ABSENT = "<absent>"
+NF_CUSTOM = "urn:example:verif:attrname-format:custom"
+
+
+def _ra(name=_RA_ABSENT, friendly=_RA_ABSENT, fmt=_RA_ABSENT, required=_RA_ABSENT):
+    d = {}
+    for k, v in (("name", name), ("friendly_name", friendly), ("name_format", fmt), ("required", required)):
+        if v != _RA_ABSENT:
+            d[k] = v
+    return d
+
+
+def _ra_class(acs, attr):
+    """where the attribute stands against the stated domain, from the converters' TABLES alone (mirror of
+    BuilderProofs.rattr_ok / Corr.both_no_format; it only steers the generator - Coq judges the output):
+    "ok" the element has to be valid, "f10" finding 10, "raises", "invalid" (an argument outside the domain: an
+    attribute no loaded map knows, a `required` that is no boolean)."""
+    name, friendly, fmt = attr.get("name"), attr.get("friendly_name"), attr.get("name_format")
+    if not name and not friendly:
+        return "raises"
+    if str(attr.get("required", False)).lower() not in ("true", "false", "1", "0"):
+        return "invalid"
+    if name:
+        known = any(name.lower() in (c._fro or {}) for c in acs)
+        if friendly:
+            return "ok" if fmt is not None else ("f10" if known else "invalid")
+        return "ok" if (fmt is not None or known) else "invalid"
+    return "ok" if any(friendly.lower() in (c._to or {}) for c in acs) else "invalid"
+
+
+def _patterns(acs, sel):
+    """one key of the live tables per occurring pattern of "which of the loaded maps has it", in table order"""
+    seen, out = set(), []
+    for c in acs:
+        for k in (getattr(c, sel) or {}):
+            p = tuple(k in (getattr(x, sel) or {}) for x in acs)
+            if p not in seen:
+                seen.add(p)
+                out.append(k)
+    return out
+
+
+def _ar_case(ras, cfg, tag, route="arg", extra=None):
+    """route: "arg" (call argument), "cfg" (requested_attributes of the configuration), "both" (the argument wins; the
+    configuration holds another attribute), "empty" (argument [] falls back to the configuration)"""
+    cfg = dict(cfg)
+    a = {"dest": URLS[0]}
+    if route in ("cfg", "empty"):
+        cfg["sp_requested_attributes"] = ras
+        if route == "empty":
+            a["requested_attributes"] = []
+    else:
+        a["requested_attributes"] = ras
+        if route == "both":
+            cfg["sp_requested_attributes"] = [{"name": "urn:example:from-the-configuration", "name_format": NF_CUSTOM}]
+    a.update(extra or {})
+    return case("authn_request", a, cfg, tag)
+
+
+def _swapcase_some(s_):
+    return "".join(ch.upper() if i % 2 == 0 else ch for i, ch in enumerate(s_))
+
+
+def gen_reqattr(ctx):
+    """create_requested_attribute_node: name / friendly_name / name_format / required each absent, None, "" or given;
+    the friendly name (the name) known to every occurring subset of the loaded maps - the first, a middle, the last
+    one only, several, all - read off the LIVE tables; the built-in maps and directories of three small maps in
+    several loading orders; one attribute per request and many; through the call argument, the configuration, both,
+    an empty argument; on top of signing / SPType / caller extensions."""
+    import random
+
+    rng = random.Random(60913)
+    out = []
+    falsy = [_RA_ABSENT, None, ""]
+    for ms in [None, "abc", "cba", "bac", "acb", "a", "ab", "bc", "xb"]:
+        cfg = {} if ms is None else {"_maps": ms}
+        acs = get_sp(cfg).config.attribute_converters
+        full = ms in (None, "abc", "cba")
+        tag = "ra-" + (ms or "builtin")
+        friendlies = _patterns(acs, "_to")
+        names = _patterns(acs, "_fro")
+        # the key as the map file spells it is lost at load time; ask in another case as well
+        friendlies_x = [_swapcase_some(friendlies[0]), friendlies[-1].upper()]
+        names_x = [_swapcase_some(names[0]), names[-1].upper()]
+        fmts = [_RA_ABSENT, None, "", NF_URI, NF_BASIC, NF_CUSTOM] if full else [_RA_ABSENT, NF_URI, NF_CUSTOM]
+        # many attributes in one request: every pattern under one spelling of the two other keys
+        for fmt in fmts:
+            for other in (falsy if full else falsy[:1]):
+                # quick tier: every format with the key absent, the other falsy spellings with two formats
+                if not ctx.thorough and other != _RA_ABSENT and fmt not in (_RA_ABSENT, NF_URI):
+                    continue
+                out.append(_ar_case([_ra(name=other, friendly=f, fmt=fmt) for f in friendlies + friendlies_x], cfg, tag + "-friendly-list",
+                                    route="cfg" if fmt == NF_BASIC else "arg"))
+                out.append(_ar_case([_ra(name=n, friendly=other, fmt=fmt) for n in names + names_x], cfg, tag + "-name-list",
+                                    route="cfg" if fmt == NF_CUSTOM else "arg"))
+        # one attribute per request (a failing input is then minimal)
+        if full or ctx.thorough:
+            for fmt in [_RA_ABSENT, NF_URI, NF_BASIC] if ctx.thorough else [_RA_ABSENT, NF_URI]:
+                for f in friendlies + friendlies_x[:1]:
+                    out.append(_ar_case([_ra(friendly=f, fmt=fmt)], cfg, tag + "-friendly"))
+                for n in names + names_x[:1]:
+                    if fmt == _RA_ABSENT or ctx.thorough:
+                        out.append(_ar_case([_ra(name=n, fmt=fmt)], cfg, tag + "-name"))
+        # name and friendly name both given: nothing is looked up (with a format: valid; without: finding 10 where a map
+        # knows the name), in agreement with the maps or not
+        pairs = [(names[0], acs_fro(acs, names[0])), (names[-1], "somethingElse"), (names[0], friendlies[-1])]
+        for n, f in pairs if (ms is None or ctx.thorough) else pairs[:1]:
+            for fmt in [NF_URI, "", NF_CUSTOM, _RA_ABSENT, None]:
+                out.append(_ar_case([_ra(name=n, friendly=f, fmt=fmt)], cfg, tag + "-both", route="cfg" if fmt is None else "arg"))
+        out.append(_ar_case([_ra(name="http://eidas.europa.eu/attributes/naturalperson/PersonIdentifier", friendly="PersonIdentifier",
+                                 fmt=NF_URI, required=True),
+                             _ra(name="http://eidas.europa.eu/attributes/naturalperson/DateOfBirth", fmt=NF_URI)], cfg, tag + "-unmapped"))
+    # required: every spelling (str(...).lower() has to be an xs:boolean)
+    reqs = [_RA_ABSENT, True, False, "true", "false", "True", "FALSE", "1", "0", 1, 0]
+    out.append(_ar_case([_ra(friendly="givenName", required=r) for r in reqs], {}, "ra-required"))
+    for r in reqs:
+        out.append(_ar_case([_ra(name="urn:oid:2.5.4.4", required=r)], {}, "ra-required", route="cfg" if r in (True, "1") else "arg"))
+    # nothing to go by: the call raises ValueError, wherever in the list the item stands
+    good = _ra(friendly="givenName")
+    for ras in [[{}], [_ra(required=True)], [_ra(name="", friendly=None)], [good, _ra(fmt=NF_URI)], [_ra(name=None), good]]:
+        for route in ("arg", "cfg"):
+            out.append(_ar_case(ras, {}, "ra-raises", route=route))
+    # where the list comes from
+    for ms in [None, "abc", "cba"] if ctx.thorough else [None, "cba"]:
+        cfg = {} if ms is None else {"_maps": ms}
+        acs = get_sp(cfg).config.attribute_converters
+        fr, nm = _patterns(acs, "_to"), _patterns(acs, "_fro")
+        for ras in [[_ra(friendly=fr[0], fmt=NF_URI)], [_ra(friendly=fr[1]), _ra(name=nm[-1])], [_ra(name=nm[0], fmt=NF_BASIC, required=True)]]:
+            for route in ("arg", "cfg", "both", "empty"):
+                out.append(_ar_case(ras, cfg, "ra-route", route=route))
+    # on top of the other things that touch Extensions, and signed
+    for ms in [None, "cba"]:
+        cfg = {} if ms is None else {"_maps": ms}
+        acs = get_sp(cfg).config.attribute_converters
+        fr = _patterns(acs, "_to")
+        ras = [_ra(friendly=f, fmt=NF_URI, required=True) for f in fr[:4]]
+        out.append(_ar_case(ras, dict(cfg, sp_sp_type="public", sp_sp_type_in_metadata=False), "ra-ext"))
+        out.append(_ar_case(ras, cfg, "ra-ext", extra={"extensions": ["hint-a", "hint-b"]}))
+        out.append(_ar_case(ras, cfg, "ra-ext", extra={"sign": True}))
+        out.append(_ar_case(ras, dict(cfg, sp_authn_requests_signed=True), "ra-ext", route="cfg"))
+    # the other place that turns friendly names into RequestedAttribute elements: required_attributes /
+    # optional_attributes of the metadata (metadata.do_requested_attribute through from_local_name: the map of the uri
+    # format alone is asked; "bc" has none, the names then stay as they are)
+    for ms in [None, "abc", "cba", "bc", "xb"]:
+        cfg = {} if ms is None else {"_maps": ms}
+        fr = _patterns(get_sp(cfg).config.attribute_converters, "_to")
+        out.append(case("entity_descriptor", {"who": "sp"},
+                        dict(cfg, sp_required_attributes=fr[:6] + ["nobodyKnowsThis", _swapcase_some(fr[0])],
+                             sp_optional_attributes=fr[-2:]), "ra-metadata"))
+    # seeded mixtures (inside the domain)
+    for _ in range(300 if ctx.thorough else 30):
+        ms = _pick(rng, [None, None, "abc", "cba", "bac", "acb", "ab", "bc", "xb"])
+        cfg = {} if ms is None else {"_maps": ms}
+        acs = get_sp(cfg).config.attribute_converters
+        fr, nm = _patterns(acs, "_to"), _patterns(acs, "_fro")
+        ras = []
+        while len(ras) < rng.randint(1, 5):
+            if rng.random() < .5:
+                x = _ra(name=_pick(rng, falsy), friendly=_pick(rng, fr), fmt=_pick(rng, falsy + [NF_URI, NF_BASIC, NF_CUSTOM]),
+                        required=_pick(rng, reqs))
+            else:
+                x = _ra(name=_pick(rng, nm), friendly=_pick(rng, falsy + [_pick(rng, fr)]),
+                        fmt=_pick(rng, falsy + [NF_URI, NF_BASIC, NF_CUSTOM]), required=_pick(rng, reqs))
+            if rng.random() < .2 and x.get("friendly_name"):
+                x["friendly_name"] = _swapcase_some(x["friendly_name"])
+            if _ra_class(acs, x) == "ok":
+                ras.append(x)
+        extra = {}
+        if rng.random() < .2:
+            extra["sign"] = True
+        if rng.random() < .2:
+            extra["extensions"] = ["hint-a"]
+        out.append(_ar_case(ras, cfg, "ra-random", route=_pick(rng, ["arg", "cfg", "both", "empty"]), extra=extra))
+    # the generator stays inside the stated domain (or in a labelled class)
+    for c in out:
+        if c["b"] != "authn_request":
+            continue
+        acs = get_sp({k: v for k, v in c["cfg"].items() if k == "_maps"}).config.attribute_converters
+        ras = c["a"].get("requested_attributes") or c["cfg"].get("sp_requested_attributes") or []
+        kinds = set(_ra_class(acs, x) for x in ras)
+        if "invalid" in kinds:
+            raise RuntimeError("gen_reqattr left the domain: %r" % (c,))
+    muts = []
+    pool = [c for c in out if c["tag"] not in ("ra-raises",) and not c["tag"].endswith("-both")]
+    for _ in range(60 if ctx.thorough else 10):
+        c = copy.deepcopy(pool[rng.randrange(len(pool))])
+        c["mut"] = rng.randrange(1 << 30)
+        c["tag"] = "mut:" + c["tag"]
+        muts.append(c)
+    return out + muts
+
+
+def acs_fro(acs, name):
+    """the friendly name the first map that knows `name` has for it"""
+    for c in acs:
+        if name.lower() in (c._fro or {}):
+            return c._fro[name.lower()]
+    return None
+
+
 def gen_lex(ctx, rng):
     out = []
     day = 86400
@@ -2994,7 +3310,7 @@ def generate(ctx):
         c["mut"] = rng.randrange(1 << 30)
         c["tag"] = "mut:" + c["tag"]
         muts.append(c)
-    return cases + muts + gen_lex(ctx, rng) + gen_farg(ctx) + gen_enc(ctx) + gen_identity(ctx)
+    return cases + muts + gen_lex(ctx, rng) + gen_farg(ctx) + gen_enc(ctx) + gen_identity(ctx) + gen_reqattr(ctx)
 
 
 def nontrivial(case_, obs):
@@ -3035,11 +3351,16 @@ def histogram(cases, observed):
     return h
 
 
-FINDING_CLASSES = {1: "C13-F1", 2: "C13-F2", 3: "C13-F3", 4: "C13-F4", 5: "C13-F5", 6: "C13-F6", 7: "C13-F7", 8: "C13-F8", 9: "C13-F9"}
+FINDING_CLASSES = {1: "C13-F1", 2: "C13-F2", 3: "C13-F3", 4: "C13-F4", 5: "C13-F5", 6: "C13-F6", 7: "C13-F7", 8: "C13-F8", 9: "C13-F9",
+                   10: "C13-F10"}
 UNDER_THEOREM = {
     "create_authn_request": "c13_authn_request_valid (all option handling: ACS url/index/binding, hide, ProviderName, "
                             "ForceAuthn, IsPassive, NameIDPolicy/AllowCreate/vorg, RequestedAuthnContext, Scoping, Conditions, "
-                            "Subject, Extensions with eIDAS SPType / RequestedAttributes, consent, destination, signing)",
+                            "Subject, Extensions with eIDAS SPType / RequestedAttributes, consent, destination, signing); "
+                            "create_requested_attribute_node: c13_reqattr_valid, c13_reqattr_first_map, "
+                            "c13_reqattr_names_independent_of_format, c13_reqattr_name_present, finding 10: c13_reqattr_no_format_refuted / "
+                            "_known_guarded_valid / _fixed_valid / _fixed_conservative; tied to the source text by "
+                            "c13_src2_requested_attribute_node (coq/gen/C13Src2.v, translator v2)",
     "create_logout_request": "c13_logout_request_valid, c13_logout_request_one_identifier",
     "create_logout_response": "c13_logout_response_valid (_status_response)",
     "create_manage_name_id_response": "c13_manage_name_id_response_valid (_status_response)",
@@ -3131,6 +3452,14 @@ RULE = ("quick: complete AllowCreate lattice nameid_format(4) x configured forma
         "regular expression), RequestedAttributes of the service provider (required / optional / another one missing), an "
         "attribute authority with a policy of its own, signed / PEFIM / encrypted on top, dictionary-form values under an "
         "ordinary attribute, seeded mixtures (both: own generators, fixed seeds); "
+        "eIDAS requested attributes: name / friendly_name / name_format each absent, None, '' or given x required in 11 "
+        "spellings x the friendly name (the name) known to every occurring subset of the loaded maps (read off the live "
+        "tables: first / middle / last map only, several, all; asked in another case as well) x the built-in maps and "
+        "attribute_map_dir directories of three small maps in the orders abc, cba, bac, acb, a, ab, bc, xb (one map with fro "
+        "only) x one attribute per request and every pattern in one list x call argument / configuration / both / empty "
+        "argument; items with neither name nor friendly name (ValueError); SPType, caller extensions, signing on top; "
+        "required_attributes / optional_attributes of the metadata under the same directories; seeded mixtures (own generator, "
+        "fixed seed); "
         "metadata generation over roles x ui_info / organisation / contacts / entity attributes "
         "and categories / eIDAS options / endpoints / key usage / signing; seeded random mixtures; plus one injected defect "
         "(swap, drop / duplicate child, drop / corrupt / add attribute, foreign child, stray text) into a sample of the outputs; "
@@ -3138,6 +3467,11 @@ RULE = ("quick: complete AllowCreate lattice nameid_format(4) x configured forma
         "and 1500 injected defects.  non-trivial = distinct (builder, element/attribute shape of the output, defect kind, "
         "oracle verdict)")
 TRUSTED = ["xmlschema + the XSD documents shipped in saml2/data/schemas (the oracle)",
+           "source-to-Gallina translator v2 harness/py2coq2.py + coq/theories/Base/Py2.v (notes/translator_v2.md): "
+           "create_requested_attribute_node is re-translated from the source text on every run; the two element constructors "
+           "are spec calls (an object with the keyword arguments as fields)",
+           "the attribute maps enter as data: the built-in ones regenerated from the live modules (C13Tables.builtin_convs_raw), "
+           "those of a directory read off the live AttributeConverter objects (harness/c13.py conv_raw)",
            "xmlsec1 stand-in (harness/standin/xmlsec1.py) for signed / encrypted variants; its ElementTree re-serialisation "
            "drops the xmlns:xs / xmlns:xsd declarations used only inside xsi:type values - a declaration is put back before "
            "validation only if the library wrote it into the text it handed to the xmlsec binary in the same call (recorded "
@@ -3165,7 +3499,10 @@ ASSUMPTIONS = [
     "(NameID, Subject, Scoping, Conditions, RequestedAuthnContext, Extensions content) are themselves valid; "
     "create_authz_decision_query gets a resource and at least one Action with Namespace, create_authn_query a "
     "RequestedAuthnContext, authn dicts name a class_ref, organisations have name + display_name + url, eIDAS "
-    "requested attributes are known to an attribute converter",
+    "requested attributes are known to an attribute converter (the friendly name to a map's `to` table when the name is "
+    "left out, the name to a `fro` table when it is given without name_format) or come with name and name_format; their "
+    "`required` is a boolean, 'true' / 'false' in any case, 1 / 0 (BuilderProofs.rattr_ok states the domain on the input; "
+    "the names that are lower-cased are ASCII in the source tie C13/Source2.v)",
     "instant(): time stamps from 1 to the end of year 9999 (four-digit years); sid(): any string of ASCII letters / digits",
     "farg: a str leaf has the lexical form of the attribute it becomes (in_response_to an NCName, not_before a dateTime in "
     "the library's own UTC spelling - valid_instance rejects fractions / offsets -, method a non-empty URI); the NameID of the "
@@ -3228,6 +3565,8 @@ def _kids(t, ns, local):
 
 
 def cq_observed(t):
+    if t is None:                           # the call raised: nothing to read an identifier off
+        return '(Build_observed "" "" None)'
     sig = _kids(t, DS, "Signature")
     return "(Build_observed %s %s %s)" % (
         cq_str(_attr(t, "ID") or ""), cq_str(_attr(t, "IssueInstant") or ""), cq_otree(sig[0] if sig else None))
@@ -3264,24 +3603,20 @@ def _ext_content(d):
 
 
 def _reqattr(sp, attr):
-    name, friendly, fmt = attr.get("name"), attr.get("friendly_name"), attr.get("name_format")
-    acs = sp.config.attribute_converters
-    to_hit = None
-    if friendly:
-        for conv in acs:
-            if friendly.lower() in conv._to:
-                to_hit = (conv._to[friendly.lower()], conv.name_format)
-                break
-    final = name or (to_hit[0] if to_hit else None)
-    fro_hit = None
-    if final:
-        for conv in acs:
-            if final.lower() in conv._fro:
-                fro_hit = (conv._fro[final.lower()], conv.name_format)
-                break
-    hit = lambda h: "None" if h is None else "(Some (%s, %s))" % (cq_str(h[0]), cq_str(h[1]))
-    return ("(Build_reqattr %s %s %s %s %s %s)"
-            % (cq_ostr(name), cq_ostr(friendly), cq_ostr(fmt), cq_pyv(attr.get("required", False)), hit(to_hit), hit(fro_hit)))
+    """one requested attribute as the caller spelt it (the look-ups are Builders.ra_resolve's business)"""
+    req = attr.get("required", False)
+    if isinstance(req, int) and not isinstance(req, bool):
+        req = str(req)                      # str(1) is "1": the model only ever takes str(required)
+    return "(Build_rattr %s %s %s %s)" % (cq_ostr(attr.get("name")), cq_ostr(attr.get("friendly_name")),
+                                          cq_ostr(attr.get("name_format")), cq_pyv(req))
+
+
+def cq_convs(cfg, sp):
+    """config.attribute_converters of the entity as Coq data: the built-in maps are the regenerated table, the maps of
+    a directory of the harness's own are read off the LIVE converter objects"""
+    if "_maps" not in cfg:
+        return "builtin_convs"
+    return "(map mk_conv [%s])" % "; ".join(conv_raw(c) for c in sp.config.attribute_converters)
 
 
 def _racv(v):
@@ -3321,6 +3656,7 @@ def bi_authn_request(case, obs):
         ("ar_cfg_sp_type", cq_ostr(cfg.get("sp_sp_type"))),
         ("ar_cfg_sp_type_in_md", "None" if spt_md is None else "(Some %s)" % cq_b(spt_md)),
         ("ar_cfg_reqattrs", "[%s]" % "; ".join(_reqattr(sp, x) for x in cfg.get("sp_requested_attributes") or [])),
+        ("ar_convs", cq_convs(cfg, sp)),
         ("ar_signing", cq_signing(a.get("sign"), bool(cfg.get("sp_authn_requests_signed")))),
         ("ar_destination", cq_ostr(a.get("dest"))), ("ar_vorg", cq_str(a.get("vorg", ""))),
         ("ar_scoping", cq_otree(inst_tree(mk_scoping(a.get("scoping"))))),
@@ -3789,7 +4125,8 @@ MODELLED = {
 }
 # the model covers the call that emits: when the real call raised, only create_logout_request's own
 # "Missing subject identification" is part of the model
-MODELLED_EXC = {"logout_request": "saml"}
+MODELLED_EXC = {"logout_request": "saml",
+                "authn_request": "value"}    # create_requested_attribute_node: neither name nor friendly_name
 
 
 # =============================================================================== vocabulary of recurring strings
